@@ -281,7 +281,27 @@ def propose(rng: random.Random, pool: list[dict], families: list[str] | None = N
         if rng.random() < 0.3:
             const = ["const", "nbool", [1] * crank, [cval], [rng.random() < 0.6]]
         c = rng.random()
-        if c < 0.5:
+        if c < 0.2 and r >= 1 and _core(d) != "utf8":
+            # an operand that holds data with no extent along the axis (value-dependent "nothing to do" shortcuts);
+            # its dtype still takes part in promotion
+            cands = [t for t in DT_POOL if _core(t) != "utf8" and (_is_num(t) == _is_num(d)) and (_is_bool(t) == _is_bool(d))]
+            t = rng.choice(cands)
+            empty = ["const", t, [0] + list(shp[1:]), []] + ([[]] if impl.is_nullable(t) else [])
+            args = [x["ref"], empty]
+            if rng.random() < 0.5:
+                args.reverse()
+            return "concat", args, {"axis": 0}
+        if c < 0.35 and _is_num(d):
+            # neutral / absorbing elements held as data: x + 0, x * 1, x * 0, x - 0, x ** 1
+            op, v = rng.choice([("add", 0), ("multiply", 1), ("multiply", 0), ("subtract", 0), ("pow", 1), ("divide", 1)])
+            crank2 = rng.randrange(0, r + 2)
+            t = rng.choice([d, _core(d)] + [q for q in DT_POOL if _is_num(q)][:2])
+            k = ["const", t, [1] * crank2, [v]] + ([[False]] if impl.is_nullable(t) else [])
+            args = [x["ref"], k]
+            if rng.random() < 0.4 and op in ("add", "multiply"):
+                args.reverse()
+            return op, args, {}
+        if c < 0.6:
             if _is_bool(d) and not impl.is_nullable(d) or rng.random() < 0.3:
                 if not _is_bool(d):
                     return None
@@ -406,7 +426,8 @@ def propose(rng: random.Random, pool: list[dict], families: list[str] | None = N
             axes = rng.sample(range(r), k)
             return op, [x["ref"]], {"shift": [rng.randrange(-5, 6) for _ in axes], "axis": axes}
         if op in ("concat", "stack"):
-            y = pick(lambda e: e["dtype"] == d and len(e["shape"]) == r and (
+            mixed = rng.random() < 0.4
+            y = pick(lambda e: (e["dtype"] == d or (mixed and _is_num(d) and _is_num(e["dtype"]))) and len(e["shape"]) == r and (
                 e["shape"] == shp if op == "stack" else r >= 1 and e["shape"][1:] == shp[1:]))
             if y is None or (op == "concat" and r == 0):
                 return None
